@@ -10,7 +10,7 @@ use std::collections::BTreeSet;
 macro_rules! harness {
     ($name:ident, $body:expr) => {
         #[kani::proof]
-        #[kani::unwind(100)]
+        #[kani::unwind(5)]
         #[kani::stub(crate::parser::parse_value, no_parse_value)]
         #[kani::stub(crate::de::from_slice, no_from_slice)]
         #[kani::stub(std::ptr::drop_in_place, noop_drop)]
@@ -182,7 +182,7 @@ harness!(c17_select_after_predicate, split1(2, |k| docs(k, |d| select_append(d, 
 //@ desc: vacuity twin: strip_nulls into a prefilled buffer claimed to leave the length unchanged — must be refuted
 //@ fns: strip_nulls
 #[kani::proof]
-#[kani::unwind(100)]
+#[kani::unwind(5)]
 #[kani::stub(crate::parser::parse_value, no_parse_value)]
 #[kani::stub(crate::de::from_slice, no_from_slice)]
 #[kani::stub(std::ptr::drop_in_place, noop_drop)]
